@@ -331,6 +331,47 @@ def run(prog: Program, col: Collector, tier: str, refs: Optional[Refs] = None, c
     col.rule("R05.5", "the reserved marker literal is used consistently", floor=4)
     _marker(prog, col, refs)
 
+    # the renaming map handed to the base substitution covers every bound name: an _alpha_convert override that rebuilds the map
+    # (to give the new names their domains) must not filter it
+    for tc in cat.term_classes.values():
+        m = tc.cls.methods.get("_alpha_convert")
+        if m is None or len(m.positional) < 2:
+            continue
+        ap = m.positional[1]
+        for n in walk_no_nested(m.node):
+            if isinstance(n, ast.Assign) and isinstance(n.value, ast.DictComp) and any(isinstance(t, ast.Name) and t.id == ap for t in n.targets):
+                g = n.value.generators[0]
+                src_ok = norm(g.iter) in (f"{ap}.items()", ap)
+                if src_ok:
+                    # a filter `k in self.<field>.inputs` is harmless when it names every funsor-valued subterm the map is applied to
+                    funsor_fields = set()
+                    init = tc.cls.methods.get("__init__")
+                    if init is not None:
+                        for a in walk_no_nested(init.node):
+                            if isinstance(a, ast.Assert) and isinstance(a.test, ast.Call) and norm(a.test.func) == "isinstance" and len(a.test.args) == 2 \
+                                    and isinstance(a.test.args[0], ast.Name) and norm(a.test.args[1]) == "Funsor":
+                                funsor_fields.add(a.test.args[0].id)
+                    tested = {x.value.attr for c_ in g.ifs for x in ast.walk(c_) if isinstance(x, ast.Attribute) and x.attr == "inputs" and isinstance(x.value, ast.Attribute)}
+                    if g.ifs and funsor_fields and funsor_fields <= tested:
+                        col.ok(f"{m.fq}::renaming map rebuilt", f"filtered by membership in the inputs of every subterm ({', '.join(sorted(funsor_fields))})", m.loc(n), rule="R05.1")
+                        continue
+                    col.check(not g.ifs, f"{m.fq}::renaming map rebuilt", "the rebuilt renaming map keeps every bound name",
+                              f"the renaming map is filtered by `{' and '.join(norm(c) for c in g.ifs)}` before it is applied: bound names that fail the test keep the user's spelling "
+                              "in the subterms while the binder field is renamed - the variable leaks into .inputs", m.loc(n), rule="R05.1")
+    # pairing of prev/curr step names: keys and values of one mapping must not be sorted independently
+    for f in prog.funcs.values():
+        if isinstance(f.node, ast.Lambda) or f.module.name not in ("funsor.sum_product", "funsor.terms"):
+            continue
+        sorted_parts = {}
+        for n in walk_no_nested(f.node):
+            if isinstance(n, ast.Call) and isinstance(n.func, ast.Name) and n.func.id == "sorted" and len(n.args) == 1 and isinstance(n.args[0], ast.Call) \
+                    and isinstance(n.args[0].func, ast.Attribute) and n.args[0].func.attr in ("keys", "values") and isinstance(n.args[0].func.value, ast.Name):
+                sorted_parts.setdefault(n.args[0].func.value.id, set()).add(n.args[0].func.attr)
+        for name, parts in sorted_parts.items():
+            if parts == {"keys", "values"}:
+                col.violation(f"{f.fq}::sorted({name}.keys()) / sorted({name}.values())", f"the keys and the values of `{name}` are sorted independently: the pairing between a bound "
+                              "name and its partner (prev -> curr step names) then depends on how the user spelled them", f.loc(), rule="R05.1")
+
     # ---------------------------------------------------------------- R05.6
     from . import algebra
     algebra.r_scope_extrusion(prog, col, refs, cat, "R05.6")
